@@ -373,6 +373,7 @@ type FuncContract struct {
 	Ensures  []*Clause
 	Invs     []*Clause
 	Applies  []*Clause // lemma/axiom instantiations: Loop 0 = at entry, Loop k = at the start of each iteration of loop k
+	Unroll   map[int]int // loop ordinal -> complete unrolling bound
 	Steps    []*Clause // loop K step E: relation between the start (old(..)) and the end of one iteration
 	Decr     []*Clause
 	Pure     bool // no heap effects
@@ -579,6 +580,20 @@ func (cs *Contracts) parseLines(pkgPath string, lines, wheres []string) {
 				continue
 			}
 			kind := fs[1]
+			if kind == "unroll" {
+				// loop K unroll N: the loop runs at most N times; it is unrolled completely
+				// and "the guard is false after N iterations" is an obligation
+				n, err := strconv.Atoi(fs[2])
+				if err != nil || n < 0 || n > 64 {
+					cs.errf(where, "bad unroll count")
+					continue
+				}
+				if cur.Unroll == nil {
+					cur.Unroll = map[int]int{}
+				}
+				cur.Unroll[k] = n
+				continue
+			}
 			rest = strings.TrimSpace(strings.TrimPrefix(strings.TrimSpace(strings.TrimPrefix(rest, fs[0])), kind))
 			cl := mkClause(kind)
 			if cl == nil {
